@@ -118,20 +118,25 @@ Definition x8_to_step (src : list N) (room : nat) (throw : bool) : tres :=
   match src with
   | [] => TStop
   | u :: rest =>
-    let pair := (0xD800 <=? u) && (u <=? 0xDBFF) in
-    match (if pair then match rest with [] => None | t :: _ =>
-                 (* ((curVal - 0xD800) << 10) + ((srcPtr[1] - 0xDC00) + 0x10000), 32-bit unsigned wrap *)
-                 Some (((u - 0xD800) * 1024 + (t + w32 - 0xDC00) + 0x10000) mod w32, 2%nat) end
-           else Some (u, 1%nat)) with
-    | None => TStop
-    | Some (cur, used) =>
+    let lead := (0xD800 <=? u) && (u <=? 0xDBFF) in
+    let enc (cur : N) (used : nat) : tres :=
       let n := if cur <? 0x80 then 1%nat else if cur <? 0x800 then 2%nat else if cur <? 0x10000 then 3%nat
                else if cur <? 0x110000 then 4%nat else 0%nat in
       match n with
       | O => if throw then TErr E_Trans_Unrepresentable else TOut [32] used   (* replacement, no room check *)
       | _ => if Nat.ltb room n then TStop else TOut (enc_bytes cur n) used
+      end in
+    if lead then
+      match rest with
+      | [] => TStop                                  (* leave the leading surrogate for the next call *)
+      | t :: _ =>
+        (* after the repair (F7): the next unit must be a trailing surrogate *)
+        if (t <? 0xDC00) || (0xDFFF <? t) then TErr E_Trans_BadTrailingSurrogate else
+        (* ((curVal - 0xD800) << 10) + ((trailCh - 0xDC00) + 0x10000), 32-bit unsigned wrap *)
+        enc (((u - 0xD800) * 1024 + (t + w32 - 0xDC00) + 0x10000) mod w32) 2%nat
       end
-    end
+    else if (0xDC00 <=? u) && (u <=? 0xDFFF) then TErr E_Trans_BadSrcSeq   (* trailing surrogate on its own *)
+    else enc u 1%nat
   end.
 
 Fixpoint x8_to_loop (fuel : nat) (src : list N) (room : nat) (throw : bool) : res (list N * nat) xerr :=
